@@ -134,6 +134,99 @@ Proof.
   unfold loops_pos, ex_count. cbn. repeat split; intros _; lia.
 Qed.
 
+(* ================================================================================================== *)
+(* From a flat token list to the structured program (proofs/LoopParseP.v, proofs/LoopExecP.v).
+     parse_loops   a total parser of the brackets LBegin / LBreak / LEnd of a token list (recursive descent)
+     balanced      := parse_loops toks <> None, a computable well-formedness predicate
+     parse_toks    the same on the tokens of the model (RunCore.to_ltok); Sub / tuplet tokens carry their own token
+                   lists and are LEAVES of the enclosing level (each is run by its own exec() call, to which the same
+                   theorems apply); macro calls and PLAY lex their text at run time and are leaves too *)
+From Coq Require Import String.
+From Sakura.Model Require Import Base Cursor Event Song Token LexCore RunCore Compile.
+From Sakura.Gen Require Import VarRows.
+From Sakura.Proofs Require Import LoopParseP LoopExecP.
+
+(* soundness and completeness of the parser: a token list parses to p exactly when it is the flat text of p *)
+Theorem C05_parse_sound : forall (D : Type) (toks : list (ltok D)) (p : prog D), parse_loops toks = Some p -> flatten p = toks.
+Proof. exact parse_loops_sound. Qed.
+Theorem C05_parse_complete : forall (D : Type) (p : prog D), parse_loops (flatten p) = Some p.
+Proof. exact parse_loops_complete. Qed.
+Theorem C05_balanced_iff : forall (D : Type) (toks : list (ltok D)), balanced toks = true <-> exists p : prog D, flatten p = toks.
+Proof. exact balanced_iff. Qed.
+
+(* the machine on ANY token list with balanced brackets is the structured meaning of the parsed program, given fuel above
+   its cost; a count that evaluates to 0 runs once (count1) ... *)
+Theorem C05_run_parsed : forall (D St : Type) (step : D -> St -> St) (halted : St -> bool) (cnt : Z -> St -> nat)
+  (toks : list (ltok D)) (p : prog D) (s : St) (fuel : nat),
+  parse_loops toks = Some p -> (cost D St step halted (count1 cnt) p s < fuel)%nat ->
+  run D St step halted cnt fuel toks s = Some (sem D St step halted (count1 cnt) p s).
+Proof. exact run_parsed. Qed.
+(* ... and with all counts positive it is the meaning with the counts as written *)
+Theorem C05_run_parsed_pos : forall (D St : Type) (step : D -> St -> St) (halted : St -> bool) (cnt : Z -> St -> nat)
+  (toks : list (ltok D)) (p : prog D) (s : St) (fuel : nat),
+  parse_loops toks = Some p -> loops_pos D St cnt p -> (cost D St step halted cnt p s < fuel)%nat ->
+  run D St step halted cnt fuel toks s = Some (sem D St step halted cnt p s).
+Proof. exact run_parsed_pos. Qed.
+
+(* for the interpreter of the model, on what the lexer made of a source text *)
+Theorem C05_exec_lexed : forall (ls : lexstate) (src : list Z) (ln : Z) (toks : list tok) (ls' : lexstate) (p : prog tok)
+  (d steps : nat) (s : song),
+  lex ls src ln = Ok (toks, ls') -> parse_toks toks = Some p -> counts_pos p ->
+  (cost tok (res song) (step_tok (exec_f d steps)) RunCore.halted RunCore.count_of p (Ok s) < steps)%nat ->
+  exec_f (S d) steps toks (Ok s) = sem tok (res song) (step_tok (exec_f d steps)) RunCore.halted RunCore.count_of p (Ok s).
+Proof. exact exec_lexed. Qed.
+
+(* the two shapes of the property, on token lists: the tokens of `[n body]` run like the tokens of body written n times ... *)
+Theorem C05_repeat_tokens : forall (d steps : nat) (n : Z) (body : list tok) (pb : prog tok) (r : res song),
+  parse_toks body = Some pb -> (1 <= n)%Z ->
+  (cost_item tok (res song) (step_tok (exec_f d steps)) RunCore.halted (count1 RunCore.count_of) (Loop n pb None) r < steps)%nat ->
+  exec_f (S d) steps (TLoopBegin n :: body ++ [TLoopEnd]) r = exec_f (S d) steps (concat (repeat body (Z.to_nat n))) r.
+Proof. exact exec_repeat_tokens. Qed.
+(* ... and the tokens of `[n a : b]` like (a b) written n-1 times, then a *)
+Theorem C05_break_tokens : forall (d steps : nat) (n : Z) (ta tb : list tok) (pa pb : prog tok) (r : res song),
+  parse_toks ta = Some pa -> parse_toks tb = Some pb -> (1 <= n)%Z ->
+  (cost_item tok (res song) (step_tok (exec_f d steps)) RunCore.halted (count1 RunCore.count_of) (Loop n pa (Some pb)) r < steps)%nat ->
+  exec_f (S d) steps (TLoopBegin n :: ta ++ [TLoopBreak] ++ tb ++ [TLoopEnd]) r
+  = exec_f (S d) steps (concat (repeat (ta ++ tb) (Z.to_nat n - 1)) ++ ta) r.
+Proof. exact exec_break_tokens. Qed.
+
+(* unbalanced lists, the simplest cases: a `]` or a `:` outside any loop is passed over (`c ] d` = `c d`, `c : d` = `c d`),
+   a `[n` that is never closed runs what follows once, whatever n (`[5 c d` = `c d`) *)
+Theorem C05_lone_end : forall (d steps : nat) (ta tb : list tok) (pa pb : prog tok) (r : res song),
+  parse_toks ta = Some pa -> parse_toks tb = Some pb ->
+  (cost tok (res song) (step_tok (exec_f d steps)) RunCore.halted (count1 RunCore.count_of) pa r + 1 +
+   cost tok (res song) (step_tok (exec_f d steps)) RunCore.halted (count1 RunCore.count_of) pb
+        (sem tok (res song) (step_tok (exec_f d steps)) RunCore.halted (count1 RunCore.count_of) pa r) < steps)%nat ->
+  exec_f (S d) steps (ta ++ TLoopEnd :: tb) r = exec_f (S d) steps (ta ++ tb) r.
+Proof. exact exec_lone_end. Qed.
+Theorem C05_lone_break : forall (d steps : nat) (ta tb : list tok) (pa pb : prog tok) (r : res song),
+  parse_toks ta = Some pa -> parse_toks tb = Some pb ->
+  (cost tok (res song) (step_tok (exec_f d steps)) RunCore.halted (count1 RunCore.count_of) pa r + 1 +
+   cost tok (res song) (step_tok (exec_f d steps)) RunCore.halted (count1 RunCore.count_of) pb
+        (sem tok (res song) (step_tok (exec_f d steps)) RunCore.halted (count1 RunCore.count_of) pa r) < steps)%nat ->
+  exec_f (S d) steps (ta ++ TLoopBreak :: tb) r = exec_f (S d) steps (ta ++ tb) r.
+Proof. exact exec_lone_break. Qed.
+Theorem C05_unclosed_begin : forall (d steps : nat) (n : Z) (ta : list tok) (pa : prog tok) (r : res song),
+  parse_toks ta = Some pa ->
+  (1 + cost tok (res song) (step_tok (exec_f d steps)) RunCore.halted (count1 RunCore.count_of) pa r < steps)%nat ->
+  exec_f (S d) steps (TLoopBegin n :: ta) r = exec_f (S d) steps ta r.
+Proof. exact exec_unclosed_begin. Qed.
+
+(* a concrete lexed source, nested loops with ':' at two levels:  [2 c [3 d : e] : f] g
+   its tokens parse to the structured program, all counts are positive, exec() on the tokens IS its meaning, within the
+   cost, and the keys sounded are c (d e d e d) f c (d e d e d) g *)
+Example C05_lexed_example :
+  (lex (mkLex 96 [] init_vars rhythm_rows) (zs "[2 c [3 d : e] : f] g") 0 = Ok (ex_toks, mkLex 96 [] init_vars rhythm_rows)) /\
+  (parse_toks ex_toks = Some ex_p) /\ counts_pos ex_p /\
+  (exec_f 2 100 ex_toks (Ok song_new)
+   = sem tok (res song) (step_tok (exec_f 1 100)) RunCore.halted RunCore.count_of ex_p (Ok song_new)) /\
+  (cost tok (res song) (step_tok (exec_f 1 100)) RunCore.halted RunCore.count_of ex_p (Ok song_new) < 100)%nat /\
+  match exec_f 2 100 ex_toks (Ok song_new) with
+  | Ok s => map e_v1 (tr_events (cur_track s)) = [60; 62; 64; 62; 64; 62; 65; 60; 62; 64; 62; 64; 62; 67]%Z
+  | _ => False
+  end.
+Proof. split; [vm_compute; reflexivity|]. exact (conj (proj1 ex_parse) (conj (proj2 ex_parse) ex_run)). Qed.
+
 Print Assumptions C05_flat_vs_structured.
 Print Assumptions C05_fuel_bound.
 Print Assumptions C05_fuel_mono.
@@ -147,3 +240,14 @@ Print Assumptions C05_repeat.
 Print Assumptions C05_repeat_text.
 Print Assumptions C05_break.
 Print Assumptions C05_break_text.
+Print Assumptions C05_parse_sound.
+Print Assumptions C05_parse_complete.
+Print Assumptions C05_balanced_iff.
+Print Assumptions C05_run_parsed.
+Print Assumptions C05_run_parsed_pos.
+Print Assumptions C05_exec_lexed.
+Print Assumptions C05_repeat_tokens.
+Print Assumptions C05_break_tokens.
+Print Assumptions C05_lone_end.
+Print Assumptions C05_lone_break.
+Print Assumptions C05_unclosed_begin.
